@@ -12,11 +12,35 @@ PY = "/venv/bin/python"
 JOBS = int(os.environ.get("VERIF_JOBS", "16"))
 
 
+_CACHE = None
+
+
+def fresh_cache():
+    """A private, initially EMPTY lingpy cache directory for this process: lingpy pickles its compiled
+    sound-class models under $XDG_CACHE_HOME and recompiles only when a pickle is missing, so a re-used
+    cache would hide edits of the shipped data files (converters, matrices) from the checks.  Directories of
+    processes that no longer exist are removed."""
+    global _CACHE
+    if _CACHE is None:
+        import atexit
+        import shutil
+        base = os.path.join(BUILD, "cache")
+        os.makedirs(base, exist_ok=True)
+        for name in os.listdir(base):
+            pid = name.split(".")[-1]
+            if pid.isdigit() and not os.path.exists("/proc/%s" % pid):
+                shutil.rmtree(os.path.join(base, name), ignore_errors=True)
+        _CACHE = os.path.join(base, "xdg.%d" % os.getpid())
+        shutil.rmtree(_CACHE, ignore_errors=True)
+        os.makedirs(_CACHE)
+        atexit.register(lambda: shutil.rmtree(_CACHE, ignore_errors=True))
+    return _CACHE
+
+
 def use_repo():
     """Make `import lingpy` resolve to the current working tree of /repo, with a
     private cache directory (so checks never touch the user's cache)."""
-    cache = os.path.join(BUILD, "xdg-cache")
-    os.makedirs(cache, exist_ok=True)
+    cache = fresh_cache()
     os.environ["XDG_CACHE_HOME"] = cache
     if SRC in sys.path:
         sys.path.remove(SRC)
@@ -44,6 +68,6 @@ def subprocess_env(hashseed="0", cache=None):
     env = dict(os.environ)
     env["PYTHONPATH"] = SRC
     env["PYTHONHASHSEED"] = str(hashseed)
-    env["XDG_CACHE_HOME"] = cache or os.path.join(BUILD, "xdg-cache")
+    env["XDG_CACHE_HOME"] = cache or fresh_cache()
     env["PYTHONDONTWRITEBYTECODE"] = "1"
     return env
